@@ -167,8 +167,8 @@ def check_row_ids(chk, rep, repo, only=None, floor=2):
 
     from ..ir import api_signature
 
-    def extension(f):  # a graph method the documented API does not have
-        return f.cls in ("Subgraph", "KNNSubgraph") and not f.name.startswith("__") and api_signature(f) is None
+    def extension(f):  # a method the documented API does not have (of a graph class, or of a record class added next to it)
+        return f.cls is not None and not f.name.startswith("__") and api_signature(f) is None
 
     def helper_of(fi):
         return lambda f: extension(f) or (f.name.startswith("_") and not f.name.startswith("__") and f.name not in anchors
